@@ -262,3 +262,21 @@ impl PacketBuilder {
         }
     }
 }
+
+#[cfg(feature = "verif-hooks")]
+impl PacketBuilder {
+    /// Verification hook: (state name, buffered header bytes, body bytes still missing, body bytes buffered)
+    pub fn verif_partial(&self) -> (&'static str, Vec<u8>, usize, Vec<u8>) {
+        let state = match self.state {
+            ReadState::FixedHeader => "fixed_header",
+            ReadState::RemainingLength => "remaining_length",
+            ReadState::Payload => "payload",
+        };
+        (
+            state,
+            self.header_buf.clone(),
+            self.remaining_length,
+            self.raw_buf.clone().unwrap_or_default(),
+        )
+    }
+}
